@@ -169,9 +169,9 @@ def run_case(case):
         mapping.append(inherited)
         definer.append(base_def)
         ev = getattr(cls, '__events__', None)
-        snapshots.append((ev, copy.deepcopy(ev)))
+        snapshots.append((ev, None if ev is None else dict(ev)))
         # the attribute the dispatcher reads must be the expected mapping
-        if (ev or {}) != inherited:
+        if dict(ev or {}) != inherited:
             res.div(-1, 'mapping-mismatch', f'H{ci}.__events__ differs from '
                     'bases-extended-and-overridden-by-own',
                     expected=inherited, observed=ev)
@@ -179,7 +179,7 @@ def run_case(case):
         for bi in range(ci):
             obj, snap = snapshots[bi]
             now = getattr(classes[bi], '__events__', None)
-            if now is not obj or now != snap:
+            if (None if now is None else dict(now)) != snap:
                 res.div(-1, 'base-mapping-altered', f'decorating H{ci} '
                         f'altered H{bi}.__events__', expected=snap,
                         observed=now)
@@ -349,7 +349,7 @@ def run_case(case):
     # bases unaltered at the end
     for bi, (obj, snap) in enumerate(snapshots):
         now = getattr(classes[bi], '__events__', None)
-        if now is not obj or now != snap:
+        if (None if now is None else dict(now)) != snap:
             res.div(len(case['ops']), 'base-mapping-altered',
                     f'H{bi}.__events__ changed after its decoration',
                     expected=snap, observed=now)
